@@ -208,6 +208,42 @@ func checkForeignKeys(w *World, r *Result) {
 			if strings.Contains(s, ".Name.Obj().Name()") || strings.Contains(s, "TableName()") {
 				selfExcl = true
 			}
+			// `<owner>.Obj().Name()` with owner a parameter that receives the table's own `.Name`
+			ast.Inspect(c.expr, func(y ast.Node) bool {
+				call, ok := y.(*ast.CallExpr)
+				if !ok {
+					return true
+				}
+				if fn := calleeOf(info, call); fn == nil || fn.Name() != "Name" || fn.Pkg() == nil || fn.Pkg().Path() != "go/types" {
+					return true
+				}
+				sel, _ := call.Fun.(*ast.SelectorExpr)
+				if sel == nil {
+					return true
+				}
+				objCall, ok := ast.Unparen(sel.X).(*ast.CallExpr)
+				if !ok {
+					return true
+				}
+				if fn := calleeOf(info, objCall); fn == nil || fn.Name() != "Obj" || fn.Pkg() == nil || fn.Pkg().Path() != "go/types" {
+					return true
+				}
+				osel, _ := objCall.Fun.(*ast.SelectorExpr)
+				if osel == nil || identOf(osel.X) == nil {
+					return true
+				}
+				ds, _ := defsThroughAny(w, fi, objOf(info, identOf(osel.X)))
+				all := len(ds) > 0
+				for _, d := range ds {
+					if !strings.HasSuffix(es(d), ".Name") {
+						all = false
+					}
+				}
+				if all {
+					selfExcl = true
+				}
+				return true
+			})
 		}
 		// the enclosing if's init tells the source
 		ast.Inspect(fi.Decl.Body, func(y ast.Node) bool {
